@@ -963,7 +963,7 @@ def disp9(ctx) -> List[Ob]:
         for k, expr in keys.items():
             if k in own and isinstance(expr, ast.Attribute) and expr.attr == "name" and A.unparse(expr.value).endswith("." + k):
                 tkey = f"{K.name}.{k} written as a name"
-                if k in reader_fix:
+                if (k, "self") in fixups_k(mk):
                     out.append(ok("DISP-9", mk.qualname, tkey, ctx.where(mk), f"field '{k}' is written as a name (str) and restored to an object by the reader (object.__setattr__)"))
                 else:
                     out.append(bad("DISP-9", mk.qualname, tkey, ctx.where(mk), f"field '{k}' of {K.name} is written as a name (str) and read back into the object-typed field without being restored"))
